@@ -84,7 +84,7 @@ def facts_path(config="default", repo=None, cache=None, verbose=False):
         # drop older fact files of this config (bounded disk use)
         olds = sorted((f for f in os.listdir(cache) if f.startswith("facts-%s-" % config) and f.endswith(".json")),
                       key=lambda f: os.path.getmtime(os.path.join(cache, f)))
-        for f in olds[:-8]:
+        for f in olds[:-40]:
             try:
                 os.remove(os.path.join(cache, f))
             except OSError:
